@@ -958,6 +958,44 @@ pub fn generate_op_fastpath(rng: &mut Rng, n: usize, _tier: &str) -> Vec<String>
             }
         }
     }
+    // every atom representation in every argument position: an empty / zero / padded / small / large atom held
+    // as a substring view ('E') or concat result ('H') of a heap atom, where the other arguments are plain.
+    // Operators special-case "empty" and "small" by representation; the value must not depend on it.
+    {
+        let reprs: Vec<T> = vec![atom(&[]), atom(&[0]), atom(&[5]), atom(&[0, 5]), atom(&[0xfb]), atom(&[0xff, 0xfb]), atom(&[0, 0x80]),
+                                 atom(&[1, 2, 3, 4, 5, 6]), atom(&[0x80, 0, 0, 0, 0, 1])];
+        for name in ["op_add", "op_subtract", "op_multiply", "op_div", "op_divmod", "op_mod", "op_gr", "op_gr_bytes", "op_eq", "op_logand",
+                     "op_logior", "op_logxor", "op_concat", "op_sha256", "op_any", "op_all", "op_ash", "op_lsh", "op_lognot", "op_not", "op_strlen"] {
+            let arities: &[usize] = match name {
+                "op_lognot" | "op_not" | "op_strlen" => &[1],
+                "op_div" | "op_divmod" | "op_mod" | "op_gr" | "op_gr_bytes" | "op_eq" | "op_ash" | "op_lsh" => &[2],
+                _ => &[1, 2, 3],
+            };
+            for flags in [0u32, 0x2000, 0x1000, 0x3000] {
+                for &k in arities {
+                    for pos in 0..k {
+                        for r in &reprs {
+                            for tag in ['E', 'H'] {
+                                if tag == 'H' && matches!(r, T::Atom(b) if b.is_empty()) {
+                                    continue;
+                                }
+                                for other in [int(5), int(-7)] {
+                                    let args: Vec<T> = (0..k).map(|i| if i == pos { r.clone() } else { other.clone() }).collect();
+                                    let tags: String = (0..k).map(|i| if i == pos { tag } else { '-' }).collect();
+                                    out.push(format!("OP f{} {} {:x} {} {} {}-", id, name, flags, 100_000_000_000u64, trees::to_hex(&T::list(args)), tags));
+                                    id += 1;
+                                }
+                            }
+                        }
+                    }
+                }
+            }
+        }
+    }
+    let mut push = |name: &str, flags: u32, args: Vec<T>| {
+        out.push(format!("OP f{} {} {:x} {} {}", id, name, flags, 100_000_000_000u64, trees::to_hex(&T::list(args))));
+        id += 1;
+    };
     for name in ["op_gr", "op_logand", "op_logior", "op_logxor", "op_lognot", "op_ash", "op_lsh", "op_div", "op_divmod", "op_mod"] {
         for flags in [0u32, 0x2000] {
             for _ in 0..n.max(20) {
